@@ -20,15 +20,18 @@ def mc_module(tags):
     #      below the forwarded watermark; (2) the outer joins retract a NULL-padded row with the old event time of the padded record.
     # The C18 model therefore covers the inner join on inputs whose records all carry event times.
     c18 = "C18" in tags
+    # C02 decides NULL-key semantics: its universe has a NULL key and no event times (the batch case)
+    keys = "{IntV(1), NullV}" if "C02" in tags else "{IntV(1)}"
+    times = "{0}" if "C02" in tags else "0..2"
     return r'''---- MODULE JoinMC_run ----
 EXTENDS JoinMC
 ChkTags == {%s}
 JCfgs == {[op |-> "sjoin", kind |-> k, lkey |-> <<1>>, rkey |-> <<1>>, lw |-> 2, rw |-> 2] : k \in %s}
-JUL(c) == {Rec(<<IntV(1), StrV("a")>>, r, t) : r \in BOOLEAN, t \in %s} \cup {Wm(1), Wm(2)}
-JUR(c) == {Rec(<<IntV(1), StrV("b")>>, r, t) : r \in BOOLEAN, t \in %s} \cup {Wm(1), Wm(2)}
+JUL(c) == {Rec(<<k, StrV("a")>>, r, t) : k \in %s, r \in BOOLEAN, t \in %s} \cup {Wm(1), Wm(2)}
+JUR(c) == {Rec(<<k, StrV("b")>>, r, t) : k \in %s, r \in BOOLEAN, t \in %s} \cup {Wm(1), Wm(2)}
 ====
 ''' % (", ".join('"%s"' % t for t in tags), '{"inner"}' if c18 else '{"inner", "left", "right", "full"}',
-       "1..3" if c18 else "0..2", "1..3" if c18 else "0..2")
+       keys, "1..3" if c18 else times, keys, "1..3" if c18 else times)
 
 
 def mc_cfg(maxlen, late):
